@@ -81,12 +81,15 @@ def c04(tier):
         insts += [i for i in step_insts(1, "quick", 3) if "-L1-" in i.name or "-L2-g01-t0" in i.name][:5]
         insts += [m_inst(1, 1, gb="0", go="0"), m_inst(2, 2, gb="01", go="10"), m_inst(0, 2, gb="", go="01")]
     else:
-        for tpl in raw_structures(6):
-            for dl in DELIMS:
-                for cm in COMMENTS:
-                    for om in (0, 1, 2):
-                        if len(tpl) > 4 and not ((dl, cm) in (("eq", "hash"), ("sp", "both"), ("speq", "hash"), ("none", "semi"), ("coleq", "both"))): continue
-                        insts.append(p_raw(tpl, dl, cm, om, timeout=1200))
+        combos = [(dl, cm) for dl in DELIMS for cm in COMMENTS]
+        main5 = [("eq", "hash"), ("sp", "both"), ("speq", "hash"), ("none", "semi"), ("coleq", "both")]
+        for ti, tpl in enumerate(raw_structures(5)):
+            if len(tpl) <= 3:
+                for ci, (dl, cm) in enumerate(combos):
+                    insts.append(p_raw(tpl, dl, cm, (ti + ci) % 3, timeout=1200))      # every (delimiter, comment) set, option rotating
+            else:
+                for ci, (dl, cm) in enumerate(main5):
+                    insts.append(p_raw(tpl, dl, cm, (ti + ci) % 3, timeout=1800))
         for tpl in raw_structures(3):
             for dl, cm in (("eq", "hash"), ("sp", "both")):
                 for fl in ("FOLLOW_GETTERS", "FOLLOW_WRITE"):
